@@ -175,10 +175,14 @@ class _Conv:
             if not name:
                 return None
             args = [self._argname(a) for a in d.args]
+            ctypes = [getattr(getattr(a, "base_type", None), "name", None) for a in d.args]
             body = n.body
         else:
             return None
-        pa = ast.arguments(posonlyargs=[], args=[ast.arg(arg=a or f"_a{i}") for i, a in enumerate(args)], vararg=None, kwonlyargs=[], kw_defaults=[], kwarg=None, defaults=[])
+        if tn == "DefNode":
+            ctypes = [getattr(getattr(a, "base_type", None), "name", None) for a in n.args]
+        # the declared C type of an argument is kept as its annotation (None for untyped ones)
+        pa = ast.arguments(posonlyargs=[], args=[ast.arg(arg=a or f"_a{i}", annotation=(ast.Name(id=str(ctypes[i]), ctx=ast.Load()) if i < len(ctypes) and ctypes[i] else None)) for i, a in enumerate(args)], vararg=None, kwonlyargs=[], kw_defaults=[], kwarg=None, defaults=[])
         stmts = self.block(body) or [ast.Pass()]
         f = ast.FunctionDef(name=name, args=pa, body=stmts, decorator_list=[], returns=None, type_comment=None, type_params=[])
         self.loc(f, n)
